@@ -12,6 +12,7 @@ MODELS = ["zen1", "zen2", "tx2", "n1", "a72", "a64fx"]
 if A.tier == "thorough":
     MODELS = ["zen1", "zen2", "zen3", "zen4", "snb", "ivb", "hsw", "icl", "icx", "spr", "tx2", "n1", "a72", "a64fx", "tsv110", "m1", "v2"]
 isolate_models(MODELS)
+MODELS = MODELS + ["isa/x86", "isa/aarch64"]  # the ISA semantic databases are looked up with the same matcher
 from osaca.semantics import MachineModel
 from osaca.parser.register import RegisterOperand
 from osaca.parser.memory import MemoryOperand
